@@ -1,13 +1,64 @@
 import Toodee.Driver.Run
 /-
-  The property oracle `S`: judges the harness's observation of one step against the *Spec* (not against the
-  Impl-model), exactly as weakly as the property text.  Verdicts: `ok`, `FAIL <why>`, `?` (property silent / not judged).
+  The property oracle `S`: judges the harness's observation of one step against what the *properties* demand — not against
+  the Impl-model — exactly as weakly as the property text.  Verdicts: `ok`, `FAIL <why>`, `?` (not judged).
+
+  Generic clauses (hold for every safe operation, whatever its outcome — C01, C05, C11, C12):
+   G1  the root array satisfies the shape invariant: `L = C*R`, `C = 0 ↔ R = 0`, `data.len() = L`;
+   G2  no double drop happened (`dbl` unchanged);
+   G3  every cell is live (`live ≥ L` on the ledgered kinds);
+   G4  a successful step that leaks nothing by design leaves no element undropped: `live - L` unchanged;
+   G5  every reachable cell holds an element that was in the array before or was supplied by the caller.
 -/
 namespace Toodee.Driver
 open Toodee
 
-def oracle (_cx : Ctx) (_prev : RObs) (_line : String) (_robs : Option RObs) : String := "?"
+def numbersIn (line : String) : List Nat :=
+  let cleaned := line.map fun c => if c.isDigit then c else ' '
+  (words cleaned).filterMap String.toNat?
 
-def oracleEnd (_cx : Ctx) (_prev : RObs) (_robs : Option RObs) : String := "?"
+def genericChecks (cx : Ctx) (prev : RObs) (line : String) (r : RObs) : List String :=
+  let st := r.st
+  let ws := words line
+  let op := ws.getD 1 ""
+  let hasFault := ws.getLast?.map isFaultTok = some true
+  let hasBang := ws.any fun w => w.contains '!'
+  let leaks := ws.contains "leak"
+  let g1 := if st.big then [] else
+    (if st.l = st.c * st.r ∧ (st.c = 0 ↔ st.r = 0) ∧ st.data.length = st.l then [] else ["G1:shape-invariant"])
+  let g2 := if r.dbl = prev.dbl then [] else ["G2:double-drop"]
+  let g3 := if cx.elem = .cell ∧ r.live < (st.l : Int) then ["G3:dead-cell-reachable"] else []
+  let g4 :=
+    if cx.elem ≠ .u32 ∧ r.status = "ok" ∧ !hasFault ∧ !hasBang ∧ !leaks ∧ !prev.st.big ∧ !st.big then
+      (if r.live - (st.l : Int) = prev.live - (prev.st.l : Int) then [] else ["G4:element-left-undropped-or-over-dropped"])
+    else []
+  let bumping := ["rows_mut", "cells_mut", "col_mut", "iter_mut", "row_pair"]
+  let g5 :=
+    if st.big ∨ prev.st.big ∨ bumping.contains op ∨ cx.elem = .zst then []
+    else
+      let allowed := prev.st.data ++ numbersIn line ++ [0]
+      if st.data.all fun v => allowed.contains v then [] else ["G5:cell-of-unknown-origin"]
+  g1 ++ g2 ++ g3 ++ g4 ++ g5
+
+def oracle (cx : Ctx) (prev : RObs) (line : String) (robs : Option RObs) : String :=
+  match robs with
+  | none => "?"
+  | some r =>
+    if r.status = "bad-op" ∨ r.status = "unsupported" then "?"
+    else
+      match genericChecks cx prev line r with
+      | [] => "ok"
+      | fs => "FAIL " ++ ",".intercalate fs
+
+def oracleEnd (cx : Ctx) (prev : RObs) (robs : Option RObs) : String :=
+  match robs with
+  | none => "?"
+  | some r =>
+    let f1 := if r.st.c = 0 ∧ r.st.r = 0 ∧ r.st.l = 0 then [] else ["end:state"]
+    let f2 := if r.dbl = prev.dbl then [] else ["G2:double-drop"]
+    let f3 := if cx.elem ≠ .u32 ∧ !prev.st.big ∧ r.live ≠ prev.live - (prev.st.l : Int) then ["G4:final-drop-count"] else []
+    match f1 ++ f2 ++ f3 with
+    | [] => "ok"
+    | fs => "FAIL " ++ ",".intercalate fs
 
 end Toodee.Driver
